@@ -164,7 +164,8 @@ func Run(sc *Script) []trace.Event {
 	}
 	// end of script: everything must terminate without further input
 	r.gates.releaseAll()
-	deadline := time.After(Watchdog)
+	deadline := make(chan struct{}) // closed (not a one-shot timer value): several calls may be hung
+	time.AfterFunc(Watchdog, func() { close(deadline) })
 	for c, cs := range calls {
 		if sc.Cfg.Async {
 			// asynchronous calls return at once by contract
